@@ -50,6 +50,33 @@ CHECKS["C03"] = (
     "DESIGN.md section 3, C03",
 )
 
+CHECKS["C05"] = (
+    "ENUM",
+    "model_checking",
+    "bounded exhaustive enumeration of operator skeletons x value tuples, each ground atom decided by ISLa (three observation points) and by Z3",
+    "Every SMT-LIB operator the ISLa grammar accepts is instantiated in ~450 skeletons (comparisons, arithmetic incl. div/mod/abs/unary "
+    "minus/power and n-ary forms, Boolean structure incl. =>/xor/ite/distinct, all str.* functions, regular-expression constructors one "
+    "level deep) and evaluated on ALL value tuples over a string alphabet (empty, newline, quote, backslash, Latin-1 and BMP non-ASCII, "
+    "regex metacharacters, padded and very large numerals) and an integer alphabet (negatives, zero divisors): through is_valid(), through "
+    "evaluate() with the values taken from tree nodes, and through SMTFormula.substitute_expressions. Each answer must equal Z3's own "
+    "verdict on the same ground expression and no call may raise.",
+    "Z3 itself is the oracle (property text). Atoms Z3 cannot decide in 3 s are skipped and counted; str.to.int on signed numerals only 'must not raise', on non-numerals excluded.",
+    "DESIGN.md section 3, C05",
+)
+
+CHECKS["C10"] = (
+    "ENUM",
+    "model_checking",
+    "bounded exhaustive enumeration of grammars x strings through the Earley parser and ISLaSolver.parse against an independent membership fixpoint",
+    "All ~27k (quick) / ~67k (thorough) well-formed grammars of four generated families (one and two nonterminals with all alternatives up "
+    "to a symbol bound, and a three-nonterminal family built around indirect nullability and definition order) plus seven catalogue grammars "
+    "x ALL strings over the terminal characters up to length 4 (quick) / 6 (thorough), plus long members and their one-character corruptions: "
+    "the parser must yield a tree iff the string is in the language of <start> (or of the requested nonterminal), raise SyntaxError "
+    "otherwise, and every yielded tree must be a valid derivation tree with exactly the input as its string.",
+    "Membership oracle: bounded least fixpoint / CYK table in mc/ref/member.py (shares no code with the parser). Grammars follow ISLa's own well-formedness statement (<start> ::= one nonterminal).",
+    "DESIGN.md section 3, C10",
+)
+
 NOT_YET = "check not built yet in this round (planned in DESIGN.md section 3)"
 
 
